@@ -91,6 +91,27 @@ pub fn window(j: &J) -> WindowStatement {
     w
 }
 
+/// one call on a WindowStatement builder (C15)
+pub fn apply_window(w: &mut WindowStatement, c: &J) {
+    match c["op"].as_str().unwrap() {
+        "partition_by" => { w.add_partition_by(expr(&c["e"])); }
+        "order_by" => {
+            match nulls(&c["nulls"]) {
+                Some(n) => w.order_by_expr_with_nulls(expr(&c["e"]), order(&c["o"]), n),
+                None => w.order_by_expr(expr(&c["e"]), order(&c["o"])),
+            };
+        }
+        "frame" => {
+            let f = &c["f"];
+            let ty = if f["type"] == "Range" { FrameType::Range } else { FrameType::Rows };
+            let end = f.get("end").filter(|x| !x.is_null()).map(frame);
+            w.frame(ty, frame(&f["start"]), end);
+        }
+        "clear_order_by" => { w.clear_order_by(); }
+        other => panic!("unknown window op {other}"),
+    }
+}
+
 pub fn with_clause(j: &J) -> WithClause {
     let mut w = WithClause::new();
     if j["recursive"].as_bool().unwrap_or(false) {
